@@ -56,6 +56,9 @@ func hier3Scene(rng *rand.Rand, quick bool) (*scene3, string) {
 		s.place(rng, &o2, far, tiny, 1+rng.Intn(2), -1)
 		return s, "wide"
 	}
+	if rng.Intn(10) == 0 {
+		return tipsScene3(rng), "tips"
+	}
 	switch rng.Intn(8) {
 	case 0: // deep chain
 		return buildScene3(rng, sceneOpts{maxDepth: 4 + rng.Intn(3), maxComps: 40, maxLevel: 1, maxSub: 2, childProb: 1, allowTorus: true, rotate: true}), "deep"
@@ -354,4 +357,73 @@ func boundsOf(tris []Tri) (lo, hi C3) {
 		}
 	}
 	return
+}
+
+// tipsScene3: a coarse convex container (tetrahedron, box, octahedron) under a random linear map
+// with strongly different stretch factors (so that it is oblique to every axis and to whatever
+// sweep direction the library uses), with tiny closed components tucked just inside its corners:
+// 0.2%..10% of the container's size, at the extreme ends of the container in every direction.
+func tipsScene3(rng *rand.Rand) *scene3 {
+	s := &scene3{scale: 1}
+	var verts []C3
+	var faces [][3]int
+	kind := ""
+	switch rng.Intn(3) {
+	case 0:
+		kind = "tetrahedron"
+		verts = []C3{xyz(1, 1, 1), xyz(1, -1, -1), xyz(-1, 1, -1), xyz(-1, -1, 1)}
+		faces = [][3]int{{0, 1, 2}, {0, 1, 3}, {0, 2, 3}, {1, 2, 3}}
+	case 1:
+		kind = "octahedron"
+		verts = []C3{xyz(1, 0, 0), xyz(-1, 0, 0), xyz(0, 1, 0), xyz(0, -1, 0), xyz(0, 0, 1), xyz(0, 0, -1)}
+		faces = [][3]int{{0, 2, 4}, {2, 1, 4}, {1, 3, 4}, {3, 0, 4}, {2, 0, 5}, {1, 2, 5}, {3, 1, 5}, {0, 3, 5}}
+	default:
+		kind = "box"
+		for i := 0; i < 8; i++ {
+			verts = append(verts, xyz(float64(i&1)*2-1, float64(i>>1&1)*2-1, float64(i>>2&1)*2-1))
+		}
+		faces = [][3]int{{0, 1, 3}, {0, 3, 2}, {4, 5, 7}, {4, 7, 6}, {0, 1, 5}, {0, 5, 4}, {2, 3, 7}, {2, 7, 6}, {0, 2, 6}, {0, 6, 4}, {1, 3, 7}, {1, 7, 5}}
+	}
+	r1, r2 := randRot(rng), randRot(rng)
+	d := xyz(math.Pow(10, -rng.Float64()), math.Pow(10, -rng.Float64()), math.Pow(10, -rng.Float64()))
+	lin := func(p C3) C3 {
+		q := r1.apply(p)
+		return cleanZero(r2.apply(xyz(q.X*d.X, q.Y*d.Y, q.Z*d.Z)))
+	}
+	for i := range verts {
+		verts[i] = lin(verts[i])
+	}
+	var ctr C3
+	for _, v := range verts {
+		ctr = ctr.Add(v.Scale(1 / float64(len(verts))))
+	}
+	tris := make([]Tri, len(faces))
+	size := 0.0
+	for i, f := range faces {
+		tris[i] = Tri{verts[f[0]], verts[f[1]], verts[f[2]]}
+	}
+	for _, v := range verts {
+		size = math.Max(size, v.Dist(ctr))
+	}
+	orientAway(tris, func(Tri) C3 { return ctr })
+	inr := minDistTo(ctr, tris)
+	s.comps = append(s.comps, &comp3{tris: tris, kind: kind, center: ctr, rOut: size, parent: -1, freeCtr: ctr, freeRad: 0.9 * inr})
+	s.desc = append(s.desc, fmt.Sprintf("0<--1:%s stretched by %v", kind, d))
+	for _, v := range verts {
+		if rng.Intn(4) == 0 {
+			continue
+		}
+		t := math.Pow(10, -2.3+1.5*rng.Float64()) // 0.005 .. 0.16 of the way to the centre
+		q := v.Add(ctr.Sub(v).Scale(t))
+		room := minDistTo(q, tris)
+		rad := room * (0.3 + 0.5*rng.Float64())
+		if !(rad > 1e-9*size) {
+			continue
+		}
+		tiny := sphereTris(q, rad, rng.Intn(2), 0, randRot(rng), rng)
+		idx := len(s.comps)
+		s.comps = append(s.comps, &comp3{tris: tiny, kind: "corner-sphere", center: q, rOut: rad, parent: 0, freeCtr: q, freeRad: 0.5 * rad})
+		s.desc = append(s.desc, fmt.Sprintf("%d<-0:sphere r=%.3g of the container's size, %.3g of the way from a corner to the centre", idx, rad/size, t))
+	}
+	return s
 }
